@@ -1,4 +1,5 @@
 import VermouthModel.C15
+import VermouthProofs.C15_Fill
 import Mathlib.Data.List.Nodup
 import Mathlib.Tactic.Linarith
 /-! Helper lemmas for C15. -/
@@ -187,6 +188,170 @@ theorem forceConst_value (p : Params) (d2 : Nat) (h0 : 0 ≤ p.minForce) (h : p.
   simp only [gt_iff_lt, Bool.false_eq_true, if_false] at *
   split_ifs at * <;> first | (exfalso; linarith) | (simp only [min_def]; split_ifs <;> linarith)
 
+/-! ### the loops that fill the two full matrices compute the closed forms -/
+
+theorem atomAt_mem' (atoms : List Atom) (i : Nat) (hi : i < atoms.length) : atomAt atoms i ∈ atoms := by
+  unfold atomAt
+  simp [List.getD_eq_getElem?_getD, hi]
+
+theorem mem_nodesOf (atoms : List Atom) (r : ResKey) (i : Nat) :
+    i ∈ nodesOf atoms r ↔ i < atoms.length ∧ (atomAt atoms i).res = r := by
+  unfold nodesOf; simp
+
+theorem mem_connWrites_cells (atoms : List Atom) (E : List (ResKey × ResKey)) (sep i j : Nat) :
+    (i, j) ∈ (connWrites atoms E sep).map (·.1) ↔
+      i < atoms.length ∧ j < atoms.length ∧ (atomAt atoms j).res ∈ ball E sep (atomAt atoms i).res := by
+  unfold connWrites
+  constructor
+  · intro h
+    obtain ⟨w, hw, e⟩ := List.mem_map.mp h
+    obtain ⟨R, _, hw⟩ := List.mem_flatMap.mp hw
+    obtain ⟨T, hT, hw⟩ := List.mem_flatMap.mp hw
+    obtain ⟨o, ho, hw⟩ := List.mem_flatMap.mp hw
+    obtain ⟨t, ht, rfl⟩ := List.mem_map.mp hw
+    simp only [Prod.mk.injEq] at e
+    obtain ⟨rfl, rfl⟩ := e
+    have ho' := (mem_nodesOf atoms R o).mp ho
+    have ht' := (mem_nodesOf atoms T t).mp ht
+    exact ⟨ho'.1, ht'.1, by rw [ht'.2, ho'.2]; exact hT⟩
+  · rintro ⟨hi, hj, hb⟩
+    have hres : (atomAt atoms i).res ∈ residues atoms := by
+      unfold residues
+      rw [List.mem_eraseDups, List.mem_map]
+      exact ⟨atomAt atoms i, atomAt_mem' atoms i hi, rfl⟩
+    apply List.mem_map.mpr
+    refine ⟨((i, j), true), ?_, rfl⟩
+    apply List.mem_flatMap.mpr; refine ⟨(atomAt atoms i).res, hres, ?_⟩
+    apply List.mem_flatMap.mpr; refine ⟨(atomAt atoms j).res, hb, ?_⟩
+    apply List.mem_flatMap.mpr; refine ⟨i, (mem_nodesOf atoms _ i).mpr ⟨hi, rfl⟩, ?_⟩
+    exact List.mem_map.mpr ⟨j, (mem_nodesOf atoms _ j).mpr ⟨hj, rfl⟩, rfl⟩
+
+/-- The three nested loops of `build_connectivity_matrix` followed by `fill_diagonal(False)` produce, at
+every cell, the closed form `connEntry`. -/
+theorem mget_connFull (atoms : List Atom) (E : List (ResKey × ResKey)) (sep i j : Nat)
+    (hi : i < atoms.length) (hj : j < atoms.length) :
+    mget (connFull atoms E sep) i j false = connEntry atoms E sep i j := by
+  unfold connFull
+  have h1 := mget_fill atoms.length (fun _ _ => true) (connWrites atoms E sep)
+    (by
+      intro w hw
+      have hc : (w.1.1, w.1.2) ∈ (connWrites atoms E sep).map (·.1) := List.mem_map.mpr ⟨w, hw, rfl⟩
+      have := (mem_connWrites_cells atoms E sep _ _).mp hc
+      refine ⟨this.1, this.2.1, ?_⟩
+      unfold connWrites at hw
+      simp only [List.mem_flatMap, List.mem_map] at hw
+      obtain ⟨_, _, _, _, _, _, _, _, rfl⟩ := hw
+      rfl)
+    (zeros atoms.length) (sq_tabulate _ _)
+  have h2 := mget_fill atoms.length (fun _ _ => false) ((List.range atoms.length).map fun i => ((i, i), false))
+    (by
+      intro w hw
+      simp only [List.mem_map, List.mem_range] at hw
+      obtain ⟨k, hk, rfl⟩ := hw
+      exact ⟨hk, hk, rfl⟩)
+    _ h1.1
+  rw [h2.2 i j false, h1.2 i j false, mget_zeros]
+  unfold connEntry resConnected
+  have hdiag : (i, j) ∈ ((List.range atoms.length).map fun i => ((i, i), false)).map (·.1) ↔ i = j := by
+    simp only [List.map_map, List.mem_map, List.mem_range, Function.comp, Prod.mk.injEq]
+    constructor
+    · rintro ⟨k, _, rfl, rfl⟩; rfl
+    · rintro rfl; exact ⟨i, hi, rfl, rfl⟩
+  by_cases e : i = j
+  · rw [if_pos (hdiag.mpr e)]; simp [e]
+  · rw [if_neg (mt hdiag.mp e)]
+    have hne : (i != j) = true := by simp [e]
+    rw [hne, Bool.true_and]
+    by_cases hb : (atomAt atoms j).res ∈ ball E sep (atomAt atoms i).res
+    · rw [if_pos ((mem_connWrites_cells atoms E sep i j).mpr ⟨hi, hj, hb⟩)]
+      exact (List.contains_iff_mem.mpr hb).symm
+    · rw [if_neg (fun h => hb ((mem_connWrites_cells atoms E sep i j).mp h).2.2)]
+      cases hc : (ball E sep (atomAt atoms i).res).contains (atomAt atoms j).res
+      · rfl
+      · exact absurd (List.contains_iff_mem.mp hc) hb
+
+theorem mem_domWrites (sel : List Nat) (atoms : List Atom) (d : Domain) (w : (Nat × Nat) × Bool) :
+    w ∈ domWrites sel atoms d ↔ ∃ k l, (k, l) ∈ combos2 sel ∧
+      (w = ((k, l), crit d (atomAt atoms k) (atomAt atoms l)) ∨ w = ((l, k), crit d (atomAt atoms k) (atomAt atoms l))) := by
+  unfold domWrites
+  constructor
+  · intro h
+    obtain ⟨⟨k, l⟩, hkl, hw⟩ := List.mem_flatMap.mp h
+    simp only [List.mem_cons, List.not_mem_nil, or_false] at hw
+    exact ⟨k, l, hkl, hw⟩
+  · rintro ⟨k, l, hkl, hw⟩
+    apply List.mem_flatMap.mpr
+    refine ⟨(k, l), hkl, ?_⟩
+    simp only [List.mem_cons, List.not_mem_nil, or_false]
+    exact hw
+
+theorem mem_domWrites_cells (sel : List Nat) (hs : sel.Pairwise (· < ·)) (atoms : List Atom) (d : Domain) (i j : Nat) :
+    (i, j) ∈ (domWrites sel atoms d).map (·.1) ↔ i ∈ sel ∧ j ∈ sel ∧ i ≠ j := by
+  constructor
+  · intro h
+    obtain ⟨w, hw, e⟩ := List.mem_map.mp h
+    obtain ⟨k, l, hkl, hw⟩ := (mem_domWrites sel atoms d w).mp hw
+    have := (mem_combos2 sel hs k l).mp hkl
+    rcases hw with rfl | rfl
+    · simp only [Prod.mk.injEq] at e
+      obtain ⟨rfl, rfl⟩ := e
+      exact ⟨this.1, this.2.1, by omega⟩
+    · simp only [Prod.mk.injEq] at e
+      obtain ⟨rfl, rfl⟩ := e
+      exact ⟨this.2.1, this.1, by omega⟩
+  · rintro ⟨hi, hj, hne⟩
+    apply List.mem_map.mpr
+    rcases Nat.lt_or_gt_of_ne hne with h | h
+    · exact ⟨((i, j), _), (mem_domWrites sel atoms d _).mpr ⟨i, j, (mem_combos2 sel hs i j).mpr ⟨hi, hj, h⟩, Or.inl rfl⟩, rfl⟩
+    · exact ⟨((i, j), _), (mem_domWrites sel atoms d _).mpr ⟨j, i, (mem_combos2 sel hs j i).mpr ⟨hj, hi, h⟩, Or.inr rfl⟩, rfl⟩
+
+/-- The loop of `build_pair_matrix` produces, at every cell, the closed form `domEntry`. -/
+theorem mget_domFull (sel : List Nat) (hs : sel.Pairwise (· < ·)) (atoms : List Atom)
+    (hn : ∀ x ∈ sel, x < atoms.length) (d : Domain) (i j : Nat) :
+    mget (domFull sel atoms d) i j false = domEntry sel atoms d i j := by
+  unfold domFull
+  have h1 := mget_fill atoms.length
+    (fun i j => if i < j then crit d (atomAt atoms i) (atomAt atoms j) else crit d (atomAt atoms j) (atomAt atoms i))
+    (domWrites sel atoms d)
+    (by
+      intro w hw
+      obtain ⟨k, l, hkl, e⟩ := (mem_domWrites sel atoms d w).mp hw
+      have := (mem_combos2 sel hs k l).mp hkl
+      rcases e with rfl | rfl
+      · exact ⟨hn _ this.1, hn _ this.2.1, by simp [this.2.2]⟩
+      · refine ⟨hn _ this.2.1, hn _ this.1, ?_⟩
+        have : ¬ l < k := by omega
+        simp [this])
+    (zeros atoms.length) (sq_tabulate _ _)
+  rw [h1.2 i j false, mget_zeros]
+  unfold domEntry
+  by_cases hc : i ∈ sel ∧ j ∈ sel ∧ i ≠ j
+  · rw [if_pos ((mem_domWrites_cells sel hs atoms d i j).mpr hc)]
+    have c1 : sel.contains i = true := List.contains_iff_mem.mpr hc.1
+    have c2 : sel.contains j = true := List.contains_iff_mem.mpr hc.2.1
+    rw [c1, c2]
+    rcases Nat.lt_or_gt_of_ne hc.2.2 with h | h
+    · simp [h]
+    · have : ¬ i < j := by omega
+      simp [h, this]
+  · rw [if_neg (mt (mem_domWrites_cells sel hs atoms d i j).mp hc)]
+    by_cases c1 : i ∈ sel
+    · by_cases c2 : j ∈ sel
+      · have : i = j := by
+          by_contra hne; exact hc ⟨c1, c2, hne⟩
+        subst this
+        simp
+      · have : sel.contains j = false := by
+          cases h : sel.contains j
+          · rfl
+          · exact absurd (List.contains_iff_mem.mp h) c2
+        simp only [this, Bool.and_false, Bool.false_and]
+    · have : sel.contains i = false := by
+        cases h : sel.contains i
+        · rfl
+        · exact absurd (List.contains_iff_mem.mp h) c1
+      simp only [this, Bool.false_and]
+
 /-! ### the matrices of `mats`, read at sub-selection indices -/
 
 theorem sel_getD_lt (names : List String) (atoms : List Atom) (a : Nat)
@@ -211,7 +376,7 @@ theorem mget_conn (atoms : List Atom) (edges : List (Int × Int)) (p : Params) (
         ((selection p.names atoms).getD c 0) := by
   unfold mats
   simp only []
-  rw [mget_subMatrix _ _ _ _ _ ha hc, mget_tabulate _ _ _ _ _ (sel_getD_lt _ _ _ ha) (sel_getD_lt _ _ _ hc)]
+  rw [mget_subMatrix _ _ _ _ _ ha hc, mget_connFull _ _ _ _ _ (sel_getD_lt _ _ _ ha) (sel_getD_lt _ _ _ hc)]
 
 theorem mget_dom (atoms : List Atom) (edges : List (Int × Int)) (p : Params) (a c : Nat)
     (ha : a < (selection p.names atoms).length) (hc : c < (selection p.names atoms).length) :
@@ -220,7 +385,8 @@ theorem mget_dom (atoms : List Atom) (edges : List (Int × Int)) (p : Params) (a
         ((selection p.names atoms).getD c 0) := by
   unfold mats
   simp only []
-  rw [mget_subMatrix _ _ _ _ _ ha hc, mget_tabulate _ _ _ _ _ (sel_getD_lt _ _ _ ha) (sel_getD_lt _ _ _ hc)]
+  rw [mget_subMatrix _ _ _ _ _ ha hc,
+    mget_domFull _ (selection_sorted _ _) _ (fun x hx => ((mem_selection _ _ _).mp hx).1)]
 
 def posAt (atoms : List Atom) (i : Nat) : V3 := vec (atomAt atoms i).pos
 
